@@ -15,6 +15,7 @@ import (
 	"github.com/janelia-flyem/dvid/datastore"
 	"github.com/janelia-flyem/dvid/datatype/labelmap"
 	"github.com/janelia-flyem/dvid/dvid"
+	"github.com/janelia-flyem/dvid/server"
 
 	"verif/harness/dv"
 	"verif/harness/lib"
@@ -49,6 +50,7 @@ type History struct {
 	Ops    []Op     `json:"ops"`
 	Pts    [][3]int `json:"pts"`
 	Extra  []uint64 `json:"extra"` // never-used labels that are queried as well
+	Cache  bool     `json:"cache,omitempty"` // run with the label-index cache on (server cache "labelmap")
 }
 
 // Result of one executed op.
@@ -91,13 +93,18 @@ func (e *Exec) addUni(ls ...uint64) {
 var repoCounter int
 
 func newExec(h *History) (*Exec, error) {
+	openStore(h.Cache)
 	repoCounter++
 	root, err := dv.NewRepo(fmt.Sprintf("c08-%d", repoCounter))
 	if err != nil {
 		return nil, err
 	}
 	bs := h.G.BS
-	if err := dv.NewInstance(root, "labelmap", inst, map[string]string{"BlockSize": fmt.Sprintf("%d,%d,%d", bs, bs, bs)}); err != nil {
+	cfg := map[string]string{"BlockSize": fmt.Sprintf("%d,%d,%d", bs, bs, bs)}
+	if h.G.Lo {
+		cfg["MaxDownresLevel"] = "1"
+	}
+	if err := dv.NewInstance(root, "labelmap", inst, cfg); err != nil {
 		return nil, err
 	}
 	e := &Exec{h: h, srv: Srv{h.G}, uuids: []string{root}, parent: []int{-1}, locked: []bool{false}, inUni: map[uint64]bool{}, last: map[int]*Snap{}, quiet: map[int]bool{}}
@@ -145,7 +152,11 @@ func (e *Exec) do(op Op) Resp {
 			if err != nil {
 				return Resp{Msg: err.Error()}
 			}
-			r := respOf(dv.Post(s.url(uuid, "blocks"), body))
+			u := s.url(uuid, "blocks")
+			if s.g.Lo {
+				u += "?downres=true" // without it the client has to post every scale itself
+			}
+			r := respOf(dv.Post(u, body))
 			e.settle()
 			return r
 		case "raw":
@@ -291,6 +302,21 @@ func (e *Exec) do(op Op) Resp {
 			e.locked[op.V] = true
 		}
 		return r
+	case "dagmerge":
+		ps := []string{uuid}
+		for _, o := range op.Labels {
+			ps = append(ps, e.uuids[int(o)])
+		}
+		child, dr := dv.Merge(ps)
+		r := respOf(dr)
+		if r.OK && child != "" {
+			e.uuids = append(e.uuids, child)
+			e.parent = append(e.parent, op.V)
+			e.locked = append(e.locked, false)
+		} else {
+			r.OK = false
+		}
+		return r
 	case "newversion", "branch":
 		var child string
 		var dr dv.Resp
@@ -313,6 +339,35 @@ func (e *Exec) do(op Op) Resp {
 }
 
 var probeShow = 12
+
+// the datastore is opened lazily, with or without the label-index cache (a process-wide
+// setting read when an instance is created), and reopened when the next history needs the other
+var storeOpen, storeCache bool
+
+func openStore(cache bool) {
+	if storeOpen && storeCache == cache {
+		return
+	}
+	if storeOpen {
+		server.CloseTest()
+	}
+	if cache {
+		server.OpenTest(server.TestConfig{CacheSize: map[string]int{"labelmap": 10}})
+	} else {
+		server.OpenTest()
+	}
+	storeOpen, storeCache = true, cache
+	if os.Getenv("C08_DEBUG") != "" {
+		fmt.Fprintln(os.Stderr, "index cache bytes:", server.CacheSize("labelmap"))
+	}
+}
+
+func closeStore() {
+	if storeOpen {
+		server.CloseTest()
+		storeOpen = false
+	}
+}
 
 type readCloser struct{ *bytes.Reader }
 
@@ -354,7 +409,7 @@ func (e *Exec) step(op Op) {
 		for v := range e.uuids {
 			addV(v)
 		}
-	case "newversion", "branch":
+	case "newversion", "branch", "dagmerge":
 		if r.OK {
 			if op.Quiet {
 				e.quiet[len(e.uuids)-1] = true
@@ -532,8 +587,7 @@ func main() {
 	os.Args = append(os.Args[:1], rest...)
 	o := lib.ParseOpts()
 	dv.Quiet()
-	dv.Open()
-	defer dv.Close()
+	defer closeStore()
 
 	if probeN > 0 {
 		bad := 0
@@ -541,6 +595,7 @@ func main() {
 		for k := 0; k < probeN; k++ {
 			rng := lib.NewRand(master.U64())
 			h := genHistory(rng, k, o.Thorough())
+			h.Cache = k >= probeN/2
 			e, err := newExec(h)
 			if err != nil {
 				fmt.Println("setup:", err)
@@ -548,6 +603,21 @@ func main() {
 			}
 			driveGenerated(e, rng)
 			errs := e.probe()
+			sort.SliceStable(errs, func(i, j int) bool {
+				return !strings.Contains(errs[i], "maxlabel") && strings.Contains(errs[j], "maxlabel")
+			})
+			if os.Getenv("C08_DEBUG") != "" {
+				last := e.steps[len(e.steps)-1]
+				for _, sn := range last.Snaps {
+					fmt.Printf("DBG v%d readerr=%v:", sn.Ver, sn.ReadErr)
+					for _, l := range e.universe {
+						if b := sn.Bodies[l]; b != nil && (b.Size.St == 0 || sn.SVs[l].Map != 0) {
+							fmt.Printf(" %d(size=%d/%d map=%d)", l, b.Size.St, b.Size.V, sn.SVs[l].Map)
+						}
+					}
+					fmt.Println()
+				}
+			}
 			if len(errs) > 0 {
 				bad++
 				fmt.Printf("=== history %d (%s): %d problems\n", k, h.Kind, len(errs))
